@@ -162,7 +162,10 @@ class Run(object):
                 and hashFromHexId(h[1:]) == b64(self.digests[r])
             objs = [x for x in allr if x.id_hex == h]
             if st is None or not objs:
-                relays[r] = dict(known=False, nick="", ip=0, flags=[], v6=0, bw=0, serial=0, ports=True, byid=True, codec=codec)
+                # (a stand-in made up for a relay the document does not list - after a lookup - never claims to be from it)
+                standin = st.routers.get(h) if st is not None else None
+                relays[r] = dict(known=False, nick="", ip=0, flags=[], v6=0, bw=0, serial=0, ports=True, byid=True, codec=codec,
+                                 cons=bool(standin is not None and standin.from_consensus))
                 continue
             o = objs[0]
             if id(o) not in self.serials:
@@ -182,7 +185,7 @@ class Run(object):
                              flags=sorted(f for f in o.flags if f in ("guard", "authority")), v6=v6,
                              bw=(bw[0] if bw else (0 if o.bandwidth == 0 else -1)), serial=self.serials[id(o)][0],
                              ports=(int(o.or_port) == 9000 + i and int(o.dir_port) == (9100 + i if i % 2 else 0)) if hasattr(o, "or_port") else False,
-                             byid=bool(byid), codec=codec)
+                             byid=bool(byid), codec=codec, cons=bool(o.from_consensus))
         byname = {}
         for k, name in NICKS.items():
             got = None
